@@ -1,7 +1,9 @@
-"""Real-process scenarios for C06 (forced shutdown kills and reaps whole trees, with and without psutil) and C02 (abrupt death of
-a worker: every unresolved future fails with TerminatedWorkerError naming the exit codes, later submits raise, workers reaped)."""
+"""H22: shutdown(kill_workers=True) of one executor returns only when ANOTHER executor's graceful shutdown(wait=True) has finished
+(the manager thread is joined under the module-wide _global_shutdown_lock).
+usage: PYTHONPATH=/repo /venv/bin/python findings/H22_real.py <seconds the other executor's task runs>"""
+import sys
+sys.argv = [sys.argv[0], "globaljoin", sys.argv[1] if len(sys.argv) > 1 else "4"]
 
-SCRIPT = r'''
 import json, os, signal, subprocess, sys, time, warnings
 warnings.simplefilter("ignore")
 
@@ -113,46 +115,6 @@ def forced(d, use_psutil, nest, pre_graceful):
     time.sleep(0.3)
     return {"took_s": round(took, 2), "pids": pids, "alive_after": [p for p in pids if alive(p)], "zombies": zombies_of_me(),
             "outcomes": outcomes, "psutil": U.psutil is not None}
-
-def leave_child(secs):
-    """a task that leaves a subprocess behind and returns: (worker pid, child pid)"""
-    c = subprocess.Popen([sys.executable, "-c", f"import time; time.sleep({secs})"], stdin=subprocess.DEVNULL)
-    return [os.getpid(), c.pid]
-
-def forced_idle(use_psutil, reusable):
-    """shutdown(kill_workers=True) arriving when every future has FINISHED: the idle workers and whatever their finished tasks left
-    behind must still be killed, at once"""
-    import loky.backend.utils as U
-    if not use_psutil:
-        U.psutil = None
-    from loky import ProcessPoolExecutor, get_reusable_executor
-    import threading
-    e = get_reusable_executor(max_workers=2, timeout=100) if reusable else ProcessPoolExecutor(2)
-    got = [e.submit(leave_child, 60).result(60) for _ in range(3)]
-    pids = sorted({p for pair in got for p in pair})
-    time.sleep(0.3)
-    t1 = time.time()
-    if reusable:
-        th = threading.Thread(target=lambda: get_reusable_executor(max_workers=2, timeout=99, kill_workers=True), daemon=True)
-    else:
-        th = threading.Thread(target=lambda: e.shutdown(wait=True, kill_workers=True), daemon=True)
-    th.start(); th.join(25)
-    hung = th.is_alive()
-    took = round(time.time() - t1, 2)
-    time.sleep(0.3)
-    out = {"took_s": None if hung else took, "hung": hung, "pids": pids, "alive_after": [p for p in pids if alive(p)], "zombies": zombies_of_me(),
-           "psutil": U.psutil is not None, "reusable": bool(reusable)}
-    for p in pids:
-        try:
-            os.kill(p, signal.SIGKILL)
-        except OSError:
-            pass
-    if reusable and not hung:
-        get_reusable_executor(max_workers=2, timeout=99).shutdown(wait=True, kill_workers=True)
-    if hung:
-        print(json.dumps(out)); sys.stdout.flush()
-        os._exit(0)
-    return out
 
 def death(how, v, pending):
     from loky import ProcessPoolExecutor
@@ -366,8 +328,6 @@ if __name__ == "__main__":
         out = churn_death(int(sys.argv[2]))
     elif mode == "churn":
         out = churn(int(sys.argv[2]), sys.argv[3] == "1")
-    elif mode == "forced_idle":
-        out = forced_idle(sys.argv[2] == "1", sys.argv[3] == "1")
     elif mode == "globaljoin":
         out = globaljoin(float(sys.argv[2]))
     elif mode == "forkstorm":
@@ -378,4 +338,3 @@ if __name__ == "__main__":
         out = death(sys.argv[2], int(sys.argv[3]), int(sys.argv[4]))
     import shutil; shutil.rmtree(d, ignore_errors=True)
     print(json.dumps(out))
-'''
